@@ -11,7 +11,7 @@ from .common import Violation, log
 TRUSTED = [
     "Lean 4.33 kernel; Mathlib v4.33 (single modules)",
     "axioms: propext, Classical.choice, Quot.sound (audited by #print axioms on every run)",
-    "tools/gen_from_source.py + tools/cxx2lean.py (translator: constants, index expressions, dispatch tables, control text; statement-by-statement translation of the loop nests of update_vertices / update_affinity / calculate_likelyhood, with the statements before/after the loops pinned literally)",
+    "translator: tools/gen_from_source.py (constants, index expressions, dispatch tables, control text), tools/cxx2lean.py + tools/gen_{solver,init}_code.py (statement-by-statement translation of the loop nests of the solver's numeric functions, the loop control and the initialisers), tools/gen_{main,run,graph,cli,utils}_code.py (validation part translated; glue code: statement sequence from the source, exact statement text -> meaning by table); statements before/after translated loops pinned literally",
     "harness/harness.cpp + vlib/*.py (correspondence harness, comparison, monitors)",
     "real-vs-double gap: theorems are over the model at R; the code and the correspondence run at IEEE double",
     "modelled, not verified: boost adjacency_list ordering, std::map/std::set, libstdc++ mt19937/uniform_real_distribution, glibc log",
